@@ -244,8 +244,6 @@ end Odf.Drv.Row
 namespace Odf.Drv.Transform
 open Odf.Rle Odf.Table Odf.Drv Odf.Drv.Table Odf.Transform Odf.Span
 
-/-- payload ids: 0 = empty unstyled, 1 = empty styled (value None) — see harness/tables.py -/
-def empOf (aggressive : Bool) (c : Nat) : Bool := if aggressive then c < 2 else c == 0
 
 def handleTbl (t : Tbl) : List String → Option (Tbl × String)
   | ["rstrip", a] =>
